@@ -283,3 +283,34 @@ func (ft *FuncTr) checkBinds(at *Term, x *ssa.Store) {
 		ft.assert(at, goal, "binds", fname, "the value stored in "+b.Field+" is the method value "+b.Method+" (found "+got+")", x.Pos())
 	}
 }
+
+// mayCarryRef: can a value of type t hold (directly or inside) a reference to a mutable heap object?
+func (w *World) mayCarryRef(t types.Type, depth int) bool {
+	if depth > 6 {
+		return true
+	}
+	if w.immutable[types.TypeString(types.Unalias(t), nil)] {
+		return false // immutable byte strings (net.IP, ...) are values of the model
+	}
+	switch x := t.Underlying().(type) {
+	case *types.Basic:
+		return x.Kind() == types.UnsafePointer
+	case *types.Struct:
+		for i := 0; i < x.NumFields(); i++ {
+			if w.mayCarryRef(x.Field(i).Type(), depth+1) {
+				return true
+			}
+		}
+		return false
+	case *types.Array:
+		return w.mayCarryRef(x.Elem(), depth+1)
+	case *types.Tuple:
+		for i := 0; i < x.Len(); i++ {
+			if w.mayCarryRef(x.At(i).Type(), depth+1) {
+				return true
+			}
+		}
+		return false
+	}
+	return true // pointers, slices, maps, channels, functions, interfaces, type parameters
+}
